@@ -53,7 +53,7 @@ def isa_of(p):
 def meta(tier):
     q = tier == 'quick'
     return {
-        'rule': 'every history over the line alphabet up to the depth bound under 3 configurations (default origin x page size x '
+        'rule': 'labels in the arguments of .zerountil / .fill / .org (each as a label expression or the literal it equals: 8 combinations x 3 sizes x 2 ends x 2 byte orders, expected image computed here); every history over the line alphabet up to the depth bound under 3 configurations (default origin x page size x '
                 'endianness x address width); each history is completed with constants K0/K1, definitions for labels that were '
                 'referenced but not defined (so references are forward as well as backward) and a suffix that emits every '
                 'label value; the whole image from address 0 must equal the reference layout; non-trivial = history with a '
@@ -65,7 +65,7 @@ def meta(tier):
             'does not say which of the two addresses "the next line" has)',
             'muted lines occupy addresses', 'constants defined from address labels are not generated',
         ],
-        'floors': {'evaluations': 1000, 'nontrivial': 100, 'statuses': ['OK', 'REJECT'], 'clauses': ['accepted', 'multi-file', 'wide-address', 'top-of-memory', 'wide-string']},
+        'floors': {'evaluations': 1000, 'nontrivial': 100, 'statuses': ['OK', 'REJECT'], 'clauses': ['accepted', 'multi-file', 'wide-address', 'top-of-memory', 'wide-string', 'label-in-directive']},
         'nshards': 64,
     }
 
@@ -131,6 +131,54 @@ def shard(acc, tier, idx, n):
     wide_addresses(acc, idx, n)
     top_of_memory(acc, idx, n)
     wide_strings(acc, idx, n)
+    labels_in_directives(acc, idx, n)
+
+
+def labels_in_directives(acc, idx, n):
+    """An address label has its value wherever it is referenced - also in the argument of a later directive that lays memory out (an
+    origin, a fill count, the end of a zero stretch, in each of them as a label expression or as the literal it equals): the layout,
+    and so every later label, is the same either way."""
+    import itertools
+    from mc.judges import judge_expect
+    from mc.world import Case
+    ctr = 0
+    for mask, k, o, endian in itertools.product(range(8), (1, 2, 4), (3, 7), ('little', 'big')):
+        ctr += 1
+        if ctr % n != idx:
+            continue
+        buf = 1
+        after = buf + k
+        zend = buf + o
+        t = max(after, zend + 1)
+        orgv = buf + 0x20
+        e = orgv
+        mem = {0: 0xEA}
+        for a in range(buf, t):
+            mem[a] = 0
+        for a in range(t, t + k):
+            mem[a] = 0xEE
+        mem[e] = 0xEA
+        a = e + 1
+        for v in (t, e, after, e + 9):
+            b = [v & 0xFF, v >> 8]
+            for x in (b if endian == 'little' else b[::-1]):
+                mem[a] = x
+                a += 1
+        image = bytes(mem.get(x, 0) for x in range(a))
+        lines = ['start: nop', f'buf: .zero {k}', 'after:',
+                 f'    .zerountil {"buf + " + str(o) if mask & 1 else zend}',
+                 f't: .fill {"after - buf" if mask & 2 else k}, $EE',
+                 f'    .org {"buf + $20" if mask & 4 else orgv}',
+                 'e: nop', '    .2byte t, e, after, last', 'last:']
+        case = Case(probe_isa(16, endian), '\n'.join(lines) + '\n')
+        out = acc.run(case)
+        acc.transition()
+        spec = {'expect': 'OK', 'image_hex': image.hex(), 'why': 'labels in directive arguments stand for their addresses'}
+        msg = judge_expect(spec, [out])
+        if msg:
+            acc.violation([case], spec, f'labels in directive arguments (mask {mask}, k={k}, o={o}, {endian}): {msg}', [out])
+        acc.judge(clause='label-in-directive', nontrivial_key=('lid', mask, k, o, endian) if mask else None)
+        acc.state(('lid', mask, k, o))
 
 
 MULTI = [('label', 'G0'), ('nop',), ('jmp', ('lab', 'G0')), ('data', 2, [('lab', 'G1')]), ('org', 2, 'zz'), ('memzone', 'zz'), ('memzone', 'GLOBAL'),
